@@ -114,6 +114,7 @@ inline gen::Root long_game(Tape& t, Report* rep, int lo, int hi)
     ref::Pos s = ref::startpos();
     gen::Root best;
     int target = lo + int(t.choose(uint32_t(hi - lo + 1)));
+    if (lo <= 780 && hi >= 800 && t.chance(1, 3)) target = 780 + int(t.choose(21));  // around the history buffer's size
     // gen_game draws its own length in [0, max]; force a long one by chaining segments
     ref::Game g(s);
     std::vector<ref::Move> ms;
